@@ -65,7 +65,7 @@ def handle (line : String) : String :=
             " ct=" ++ (if r.multi then "multi" else match r.ctype with | some c => c.toHex | none => "-") ++
             s!" body={r.body.length}:{hex64 (fnv r.body)} parts={parts} frame=" ++ (if r.multi && !sc.isHead then "exact" else "none") ++
             " trail=" ++ (if ka == 1 then (if r.closeDelimited then "closed" else "ok") else "-") ++
-            " skew=" ++ (match r.skewFrom with | some l => s!"{l},*" | none => "-") ++
+            " skew=-" ++
             " origin=" ++ origin
     | _, _, _, _, _, _, _, _ => "bad-op"
   | _ => "bad-op"
